@@ -83,7 +83,7 @@ PROPERTY_META = {
                 design_ref='DESIGN.md 6 C14'),
     'C15': dict(claimed=True, level='model_checking',
                 text='The real cntgs::detail::uninitialized_construct (the single funnel of every FixedSize/VaryingSize store) is verified per stored type x source value type x source form (pointer, std::array lvalue and rvalue, C array, non-contiguous generated iterator, aliasing-safe path) against: stored item k == StoredType(source item k) evaluated in C on the scalar types for an arbitrary witness k, returned end == target + n items, and an assigns clause that contains only the target items (sources unmodified). emplace_at is proved (unbounded) to pass its arguments to these stores at the right addresses.',
-                note='Bounded: at most 4 items per span (copy loops unwound with unwinding assertions); the memcpy branch is covered by the copy model that is exact at the witness item. For the non-trivial vf::Tracked the FixedSize store is verified to copy-construct every item of an lvalue std::array exactly once without moving from it, and to move from every item of an rvalue array exactly once. Class types with converting constructors, std::list and move_iterator sources are not under contract; conversions that are undefined in C++ (float out of range) are excluded by precondition.',
+                note='Bounded: at most 4 items per span (copy loops unwound with unwinding assertions); the memcpy branch is covered by the copy model that is exact at the witness item. For the non-trivial vf::Tracked the FixedSize store is verified to copy-construct every item of an lvalue std::array exactly once without moving from it, and to move from every item of an rvalue array exactly once. Class types with converting constructors, std::list, move_iterator, std::deque iterators and reverse_iterator sources are not under contract (the last two are mistaken for contiguous by the pinned tree: defect D22 in DESIGN.md 1, reproduced natively, reached by no unit); conversions that are undefined in C++ (float out of range) are excluded by precondition.',
                 design_ref='DESIGN.md 6 C15'),
     'C11': dict(claimed=True, level='model_checking',
                 text='operator[] and iterator dereference (both const overloads) are verified to build a reference whose pointers are exactly the stored objects of the indexed element (so every access path denotes the same objects); iterator.data() is the element start; reference = reference is verified per list (trivial fields coalesced into memmove runs, vf::Tracked fields through the value type) against: trivial fields hold the source bytes (witness address), every non-trivial item is copy- resp. move-assigned exactly once from the item at the same place, an lvalue source is not moved from and not written; swap exchanges trivial bytes and swaps non-trivial items through their move operations.',
@@ -91,7 +91,7 @@ PROPERTY_META = {
                 design_ref='DESIGN.md 6 C11'),
     'C06': dict(claimed=True, level='model_checking',
                 text='A ghost lifetime model of the non-trivial value type vf::Tracked (every special member reports to a hook; one arbitrary watched address) asserts inside every function under contract: no construction over an alive object, no read/assign/destroy of a dead object, no byte copy over an alive object; reference assignment, swap and ElementTraits::destruct are verified to construct nothing, destroy exactly the items of the element once, and assign each item through its own operator.',
-                note='Bounded: span items <= 2. Vector-level histories with non-trivial types (erase/reserve/copy relocation loops) are covered only where vec.*t* units are listed in the evidence.',
+                note='Bounded: span items <= 2. Vector-level units with non-trivial types (vec.f4t, vec.f4m, vec.c4_f4t): pop_back, clear, erase, destructor, emplace_back, operator[], copy/move assignment; for the single-field lists also move construction and swap (no object is touched), and for FixedSize<Tracked> reserve beyond capacity (relocation: nothing is constructed over an alive object, no byte copy overwrites one, no object of the returned block stays alive). Copy construction of vectors of non-trivial types is not under contract (its harness watches no object of the source).',
                 design_ref='DESIGN.md 6 C06'),
     'C17': dict(claimed=True, level='model_checking',
                 text='The exception-enabled IR of the real code is verified with an allocation hook that fails nondeterministically at every call (which covers failing the k-th allocation for every k): contracts of AllocatorAwarePointer construction/copy construction/copy assignment (unbounded, proof) and of vector construction, reserve, copy construction, copy assignment and move assignment between unequal allocators state for the exceptional exit: nothing leaked (live-block counter), no double free (ledger assertions), the source completely unchanged, the target still valid (owns its blocks, reported capacity fits its block); reaching std::terminate is an assertion failure.',
@@ -221,13 +221,16 @@ def units(tier, seed=0):
                 txt, L = vec.c_unit(spec, f, maxc=3)   # the comparison oracle enumerates the span items
             for name, h, key, props, repl, extra in vec.VEC_UNITS_COMMON + (vec.VEC_UNITS_VAR if L.is_varying() else vec.VEC_UNITS_FIXED):
                 if tracked:
-                    if name not in ('pop_back', 'clear', 'erase', 'dtor', 'emplace_back', 'subscript', 'copy_assign', 'move_assign'):
+                    if name not in ('pop_back', 'clear', 'erase', 'dtor', 'emplace_back', 'subscript', 'copy_assign', 'move_assign') + (TRACKED_RELOC if len(L.params) == 1 else ()):
                         continue
                     if name in ('copy_assign', 'move_assign') and len(L.params) > 1:
                         continue   # exceeds the memory budget for mixed lists
+                    if name == 'reserve' and all(q.elem != 't' for q in L.params):
+                        continue   # the relocation clause of the reserve contract (no object alive in the returned block) is written for types with a destructor call; trivially destructible objects end their life without one
                     props = sorted(set(props + ['C06']))
                     repl = [r for r in repl if r not in ('EMPLACE',)]
                     extra = dict(extra); extra['unwind'] = 4; extra['kind'] = 'bounded(capacity 2, span items <= 2, loops unwound)'
+                    if name == 'reserve': extra['unwind'] = 3   # capacity 2 and two items per span: every loop runs at most twice (unwinding assertions on); 4 exceeds the 10 GB budget
                 u = dict(id='vec.%s.F%d.%s' % (L.tag, f, name), tu='vec_%s_F%d' % (L.tag, f), gen=cxx, template_text=txt, vars={}, entry=h,
                          enforce=('@F{%s}' % vec.RXV[key]) if key else None, replace=['@F{%s}' % vec.REPL[r] for r in repl], props=props, layer='vector.hpp/elementLocator.hpp',
                          kind=extra.get('kind', 'proof'), config='vector: %s, allocator traits F=%d' % (spec, f), replay='history')
@@ -304,6 +307,10 @@ def exc_vec_units(tier):
                                cdefs=['VF_BLOCK_K=1', 'VF_ALLOC_MAY_FAIL=1', 'VF_WINDOWS=1', 'CAPK=%d' % capk, 'UNITSK=%d' % (unitsk // L.sa), 'CAPK_O=%d' % capo, 'UNITSK_O=%d' % (unitso // L.sa)],
                                config='allocation failure: vector %s, allocator traits F=%d' % (spec, f)))
     return us
+
+
+# relocation of non-trivial objects (C06): reserve beyond capacity, copy/move construction, swap; single-field Tracked lists only (memory budget)
+TRACKED_RELOC = ('reserve', 'move_ctor', 'swap')   # copy_ctor: its harness watches no object of the source operand (needs a change of tools/vec.py)
 
 
 # units that exceed the 10 GB address-space limit of one solver process (measured in the thorough tier; they would only ever be undecided)
